@@ -21,6 +21,9 @@ func c10Prelude() []string {
 		"mkc = (a) -> () -> a + [6]",
 		"gen = (a) -> {\n  yield a + [7]\n  yield a + [8]\n}",
 		"c = mkc([0])",
+		"pair = (n) -> [n - 1, n + 1]",
+		"trip = (n) -> [0, n * n, n]",
+		"rows = (p, n) -> if n <= 0 [p] else rows(p + [0], n - 1) + rows(p + [1], n - 1)",
 	}
 }
 
@@ -47,6 +50,17 @@ func c10Ops() []string {
 		"sz = sy + \"q\"",
 		"sx = sx + sy",
 		"z = [x[0:2], y]",
+		"y = x + [8]",
+		"z = x + [9]",
+		"x = pair(10)",
+		"y = pair(20)",
+		"z = trip(3)",
+		"keep = keep + [pair(#keep)]",
+		"for i <- fromto(1, 4) keep = keep + [trip(i)]",
+		"z = rows([], 2)",
+		"y = rows(x, 1)[0]",
+		"sz = sx + \"r\"",
+		"sy = sx + \"s\"",
 		"y = z[0:1] + x[1:2]",
 	}
 	for i := 0; i <= 3; i++ {
@@ -57,7 +71,7 @@ func c10Ops() []string {
 	return ops
 }
 
-const c10Observer = "[x, y, z, sx, sy, sz, keep, lit(), c()]"
+const c10Observer = "[x, y, z, sx, sy, sz, keep, lit(), c(), pair(1), trip(2)]"
 
 type c10Item struct {
 	Ops []int `json:"ops"`
@@ -126,7 +140,7 @@ func init() {
 	core.Register(&core.Check{
 		ID:    "C10",
 		Level: "model_checking",
-		Rule: "explicit-state search over all sequences of length <= 3 (quick) / 4 (thorough) of 32 array/string operations on the globals x, y, z, sx, sy, sz, keep (literals at top level, inside a function called repeatedly and inside a loop; every slice x[i:j]; concatenations of slices, of slices of slices, nested arrays; passing to a concatenating function; iterating with elems; capture in a closure and in a generator that concatenate; string analogues). After every operation the observer [x, y, z, sx, sy, sz, keep, lit(), c()] is evaluated on the real VM and on the reference model (which copies always): every variable not assigned, every earlier result and every literal must still print as before. " +
+		Rule: "explicit-state search over all sequences of length <= 3 (quick) / 4 (thorough) of 43 array/string operations on the globals x, y, z, sx, sy, sz, keep (literals at top level, inside a function called repeatedly and inside a loop; every slice x[i:j]; concatenations of slices, of slices of slices, nested arrays; passing to a concatenating function; iterating with elems; capture in a closure and in a generator that concatenate; string analogues). After every operation the observer [x, y, z, sx, sy, sz, keep, lit(), c(), pair(1), trip(2)] is evaluated on the real VM and on the reference model (which copies always): every variable not assigned, every earlier result and every literal must still print as before. " +
 			"states = distinct (renderings, len/cap of every live array, backing-array sharing relation) read through the value hook; transitions = operations applied; distinct_nontrivial = sequences after which two live arrays share a backing array with spare capacity (so an in-place append could have collided)",
 		Assumptions: []string{"reference model refsem copies on every operation", "array layout is read through value.VerifArrayInfo (size of value.Type assumed 24 bytes for the overlap test)"},
 		Exec: func(payload string) (string, string) {
